@@ -402,8 +402,11 @@ impl<
         ts: Timestamp,
     ) -> Option<TimeZoneTransition> {
         assert!(!self.timestamps().is_empty(), "transitions is non-empty");
+        // We want the smallest whole second that is `>= ts`. `as_second`
+        // truncates toward zero, which is already the ceiling when the
+        // fractional part is negative.
         let mut timestamp = ts.as_second();
-        if ts.subsec_nanosecond() != 0 {
+        if ts.subsec_nanosecond() > 0 {
             timestamp = timestamp.saturating_add(1);
         }
         let search = self.timestamps().binary_search(&timestamp);
@@ -456,7 +459,15 @@ impl<
         ts: Timestamp,
     ) -> Option<TimeZoneTransition> {
         assert!(!self.timestamps().is_empty(), "transitions is non-empty");
-        let timestamp = ts.as_second();
+        // We want the largest whole second that is `<= ts`. `as_second`
+        // truncates toward zero, so fix it up when the fractional part is
+        // negative. (This can't underflow: the minimum second has no
+        // negative fraction.)
+        let timestamp = if ts.subsec_nanosecond() < 0 {
+            ts.as_second() - 1
+        } else {
+            ts.as_second()
+        };
         let search = self.timestamps().binary_search(&timestamp);
         let index = match search {
             Ok(i) => i.checked_add(1)?,
